@@ -33,7 +33,7 @@ impl RenetClient {
 //@safety C06,C13
 //@attr #[verifier::loop_isolation(false)]
 //@specfile contracts/shared/RenetClient.add_pending_ack.spec
-//@before /return;/ 1
+//@after /self\.pending_acks\.push\(sequence\.\.sequence \+ 1\);/ 1
             proof {
                 lemma_path_empty(old(self).pending_acks@, sequence);
                 assert(self.pending_acks@ =~= old(self).pending_acks@.push(single(sequence)));
@@ -44,13 +44,13 @@ impl RenetClient {
                 self.pending_acks@ == old(self).pending_acks@,
                 self.pending_acks@.len() >= 1,
                 forall|k: int| 0 <= k < index ==> (#[trigger] self.pending_acks@[k]).end < sequence,
-//@before /return;/ 2
+//@after /if range\.contains\(&sequence\) \{/
                 proof {
                     lemma_path_contained(old(self).pending_acks@, sequence, index as int);
                     assert(old(self).pending_acks@.update(index as int, *range) =~= old(self).pending_acks@);
                     reveal(ack_added);
                 }
-//@before /return;/ 3
+//@after /range\.start = sequence;/
                 proof {
                     let o = old(self).pending_acks@;
                     lemma_path_extend_left(o, sequence, index as int);
